@@ -203,7 +203,7 @@ def check_request(cap: dict, x: dict, base_path: str = "/base") -> list:
     for cn_, cv_ in (cl.get("extra_cookies") or {}).items():
         if jar.get(cn_) != cv_:
             probs.append(("client_cookie", f"cookie {cn_!r} given through with_cookies is {jar.get(cn_)!r} expected {cv_!r}"))
-    if cl.get("auth"):
+    if cl.get("auth") and not cl.get("own_httpx_client"):  # (a caller-supplied httpx client replaces the generated client's own settings, as documented)
         hn = cl.get("auth_header_name", "Authorization").lower()
         prefix = cl.get("prefix", "Bearer")
         want = f"{prefix} {cl['token']}" if prefix else cl["token"]
